@@ -93,6 +93,8 @@ def unix_sweep_cases(tier, seed):
         for case in c01.sweep_cases(tier, seed, interrupts=True, lib=lib):
             if case["cfg"].get("ignore_exc") and path.startswith("unix:"):
                 continue
+            if case["kind"].startswith("aws"):
+                continue           # (a cluster configuration advertises host|ip|port, never a socket path)
             yield dict(case, unix=path)
 
 
@@ -101,7 +103,7 @@ def after_close_sweep_cases(tier, seed):
     lib = [r for r in faultlab.op_library() if r["op"] in ("get", "set", "get_many", "incr", "delete_many", "set_many", "gats", "version")][::3]
     for how in ("close", "disconnect_all", "quit"):
         for case in c01.sweep_cases(tier, seed, interrupts=True, lib=lib):
-            if case["kind"].startswith("hash") and how == "quit":
+            if case["kind"].startswith(("hash", "aws")) and how == "quit":
                 continue
             pre = [{"op": {"op": "get", "key": "warmup"}}, {"op": {"op": how}}]
             if case["calls"][0]["op"].get("key") == "warmup":
@@ -164,7 +166,7 @@ def error_then_interrupt_cases(tier, seed):
     for kind, extra in c01.STACKS:
         for ie in (False, True):
             for r in ERROR_OPS:
-                if kind.startswith("hash") and r["op"] in ("get_many", "delete_many"):
+                if kind.startswith(("hash", "aws")) and r["op"] in ("get_many", "delete_many"):
                     continue
                 base = {"kind": kind, "cfg": dict(extra, ignore_exc=ie), "follow": True,
                         "calls": [{"op": {"op": "get", "key": "warmup"}}, {"op": r}] + c01.FOLLOW}
